@@ -5,6 +5,10 @@ from ..core import Report
 from ..proto import enc, enc_pt
 from . import runlevel
 
+# case kinds of corpus/ entries (failing inputs of past regressions) that this module replays on every run
+CORPUS_KINDS = ('det_run',)
+
+
 
 def extract(t):
     ev = t["events"]
@@ -102,6 +106,26 @@ def start_at_optimum_specs(ctx, n):
     return specs
 
 
+def multi_improve_specs(ctx, n):
+    """Deterministic runs that start far from the optimum, poll completely (complete_poll) and stop after very few iterations: several
+    points of one poll improve on the incumbent, in any order, and the run returns right afterwards - the returned point must be the
+    best of them."""
+    from .. import gen
+    rng = ctx.sub_rng("c04multi")
+    specs = []
+    for _ in range(n):
+        D = rng.choice([2, 2, 3, 4])
+        sp = gen.make_spec(rng, D=D, mode="det", geom=rng.choice(["box", "unbounded", "tight"]), opt_loc="inside", cons=None, target=rng.choice(["quad", "quad", "abs"]))
+        sp["c_unit"] = [round(rng.uniform(0.3, 0.8) * rng.choice([1, -1]), 3) for _ in range(D)]
+        sp["x0_unit"] = [round(-0.9 * (1 if c > 0 else -1) * rng.uniform(0.6, 1.0), 3) for c in sp["c_unit"]]
+        sp["w"] = [rng.choice([1.0, 1.5, 0.7, 2.0]) for _ in range(D)]
+        # no initial design beyond the start point and no search before the first poll: the first poll is made from the far start point
+        sp["options"] = {"n_search": 32, "max_fun_evals": 150, "complete_poll": True, "max_iter": rng.choice([1, 1, 1, 2, 3]),
+                         "fun_eval_start": 1, "search_n_try": rng.choice([0, 0, 1])}
+        specs.append(sp)
+    return specs
+
+
 def move_primitive(ctx, rep):
     """`_update_incumbent_` (the single routine through which search and poll move the incumbent) must adopt EXACTLY the point and values
     it is given - also when the new point is extremely close to the old one (fine meshes) - as Inc.searchUpdate / Noisy.move do."""
@@ -134,6 +158,7 @@ def run(ctx):
     rep = Report()
     nmove = move_primitive(ctx, rep)
     runlevel.with_extra(ctx, "c04opt", lambda: start_at_optimum_specs(ctx, 6 if ctx.quick else 60))
+    runlevel.with_extra(ctx, "c04multi", lambda: multi_improve_specs(ctx, 12 if ctx.quick else 100))
     stats, samples = run_checks(ctx, rep)
     dstats = runlevel.det_replay(ctx, rep)
     rep.coverage = {
